@@ -215,6 +215,27 @@ Example C08_seqlock_example :
   r_end (c_rx (g_s g)) = RLive.
 Proof. vm_compute. repeat split. Qed.
 
+(* witness of the excluded class (KNOWN_FINDINGS.txt, class lap-inside-receive-next; replayed on the implementation
+   with both fixes applied): the transmitter is stopped between publishing the tail-intent and updating `latest`;
+   the lapped receiver jumps to the stale latest record and reads a length word that is already a payload byte.
+   g_ok is false, and an "event" that was never transmitted (114 bytes of headers and trailer counters) is delivered. *)
+Example C08_lap_inside_receive_next_witness :
+  let pre := [(3847, payload 900 4)] in
+  let msgs := [(1, payload 10 1); (2, payload 11 1); (3843, payload 12 1)] in
+  let sched := [0; 0; 0; 0; 0; 0; 0; 1; 1; 1; 1] ++ repeat 0 40%nat ++ repeat 1 40%nat in
+  let g := grun 32 Release true (ginit 32 1099511627784 pre msgs 2) sched in
+  conc_ok 32 1099511627784 pre msgs /\ g_ok g = false /\
+  match r_out (c_rx (g_s g)) with
+  | [RMsg 3847 bs; RErr UnableToKeepUp] => length bs = 114%nat /\ ~ In (3847, bs) (pre ++ msgs)
+  | _ => False
+  end.
+Proof.
+  cbn zeta. split; [|split].
+  - unfold conc_ok, msg_ok. cbn [fst snd length]. repeat split; try (repeat constructor; reflexivity); try reflexivity; try lia.
+  - vm_compute. reflexivity.
+  - vm_compute. split; [reflexivity|]. intros [H|[H|[H|[H|[]]]]]; discriminate H.
+Qed.
+
 (* the hex rendering used to transport observations loses nothing *)
 Theorem C08_hex_injective : forall a b, bytes_ok a -> bytes_ok b -> hex a = hex b -> a = b.
 Proof. exact hex_inj. Qed.
